@@ -15,7 +15,7 @@ CONSTANTS Typed,        \* set of keystroke streams (sequences over keys; "E" is
           Outputs,      \* set of child output streams
           Pendings,     \* set of <<pending text, search buffer>> pairs at entry (search buffer: a suffix of pending)
           MaxRead,      \* bytes per read
-          InFilters, OutFilters,     \* subsets of {"id", "dup"}
+          InFilters, OutFilters,     \* subsets of {"id", "dup", "drop"}
           EscModes,     \* subset of {"esc", "none"}: escape_character given or None
           Devs
 
@@ -29,7 +29,10 @@ Take(s, n) == SubSeq(s, 1, Min(n, Len(s)))
 Drop(s, n) == SubSeq(s, Min(n, Len(s)) + 1, Len(s))
 RECURSIVE Dup(_)
 Dup(s) == IF s = <<>> THEN <<>> ELSE <<Head(s), Head(s)>> \o Dup(Tail(s))
-Apply(f, s) == IF f = "dup" THEN Dup(s) ELSE s
+\* "dup" doubles every byte; "drop" removes the bytes "x" (output) and "c" (keys): a read may be filtered to nothing
+Apply(f, s) == IF f = "dup" THEN Dup(s)
+               ELSE IF f = "drop" THEN SelectSeq(s, LAMBDA b : b \notin {"x", "c"})
+               ELSE s
 
 Positions(s, c) == {i \in 1..Len(s) : s[i] = c}
 FirstPos(s, c) == IF Positions(s, c) = {} THEN 0 ELSE CHOOSE i \in Positions(s, c) : \A j \in Positions(s, c) : i <= j
